@@ -99,11 +99,40 @@ def cases(draw, tight_margins=True):
         # keeps the peak pixel and its parabola neighbours inside the allowed disc (the pixel
         # nearest to a sub-pixel peak may otherwise be excluded, which no estimator can undo); for
         # integer shifts the peak pixel is the shift itself, so any positive margin is in domain.
-        margins = [2.5, 4.0, 16.0, 1000.0]
-        if tight_margins and sk != "real":
-            margins = [0.25, 0.5, 1.0, 1.5] + margins
-        case["max_shift_margin"] = draw(st.none() | st.sampled_from(margins))
+        case["max_shift_margin"] = draw(st.none() | st.sampled_from(_margins(sk, tight_margins)))
+    # HISTORY: for ~40% of the cases the input arrays (real-space images and, for Fourier-space
+    # input, their FFTs; numpy arrays and torch tensors sharing memory where the dtype allows) are
+    # built once and 1-2 further registrations with independently drawn settings run on the SAME
+    # array objects.  The estimate depends only on the two images, so every call is judged alike.
+    nh = draw(st.sampled_from([0, 0, 0, 1, 2]))
+    if nh:
+        kind = "fft" if (est == "numpy" and case["fft_input"]) or est == "torch_fourier" else "real"
+        case["history"] = [draw(_step(kind, dtype, sk, tight_margins)) for _ in range(nh)]
     return case
+
+
+def _margins(sk, tight_margins):
+    m = [2.5, 4.0, 16.0, 1000.0]
+    return ([0.25, 0.5, 1.0, 1.5] + m) if (tight_margins and sk != "real") else m
+
+
+@st.composite
+def _step(draw, kind, dtype, sk, tight_margins):
+    """Settings of one further call on the already-built inputs of input kind `kind`."""
+    t_est = "torch" if kind == "real" else "torch_fourier"
+    # the numpy estimator is only judged on float64 data (its 1e-6 exactness clause)
+    est = t_est if dtype == "float32" else draw(st.sampled_from(["numpy", "numpy", t_est]))
+    step = {
+        "est": est,
+        "up": draw(st.sampled_from(UPS) | st.integers(1, 64)),
+        "swap": draw(st.booleans()),
+    }
+    if est == "numpy":
+        step["fft_input"] = kind == "fft"
+        step["ret_img"] = draw(st.booleans())
+        step["fft_output"] = draw(st.booleans()) if step["ret_img"] else False
+        step["max_shift_margin"] = draw(st.none() | st.sampled_from(_margins(sk, tight_margins)))
+    return step
 
 
 # ------------------------------------------------------------------------------------------------
@@ -149,40 +178,165 @@ def _fail(msg, case):
     raise core.Violation(msg, case)
 
 
-def _estimate(ctx, case, iu, a, b, what, want_img):
-    """Run the estimator named by the case on (reference a, moving b).  Returns (shift, aligned)."""
-    import torch
+class _Pool:
+    """The two images as the array objects handed to the estimators, built once and then reused by
+    every call that draws on this pool.  float64: the torch tensors are views of the numpy arrays
+    (torch.from_numpy), so numpy and torch calls see the very same memory; float32: torch-only
+    tensors, made once.  The harness keeps its own pristine copies and never reads these back."""
 
-    est, up = case["est"], int(case["up"])
+    def __init__(self, ref, im, dtype):
+        self.dtype = dtype
+        self.a, self.b = ref.copy(), im.copy()
+        self._F = self._t = self._G = None
+
+    def real_np(self):
+        return self.a, self.b
+
+    def fft_np(self):
+        if self._F is None:
+            self._F = (np.fft.fft2(self.a), np.fft.fft2(self.b))
+        return self._F
+
+    def real_t(self):
+        import torch
+
+        if self._t is None:
+            if self.dtype == "float32":
+                self._t = (torch.tensor(self.a, dtype=torch.float32), torch.tensor(self.b, dtype=torch.float32))
+            else:
+                self._t = (torch.from_numpy(self.a), torch.from_numpy(self.b))
+        return self._t
+
+    def fft_t(self):
+        import torch
+
+        if self._G is None:
+            if self.dtype == "float32":
+                ta, tb = self.real_t()
+                self._G = (torch.fft.fft2(ta), torch.fft.fft2(tb))
+            else:
+                FA, FB = self.fft_np()
+                self._G = (torch.from_numpy(FA), torch.from_numpy(FB))
+        return self._G
+
+
+def _estimate(ctx, case, cfg, iu, pool, swap, what, want_img):
+    """Run the estimator configured by `cfg` on the pool's arrays, (reference, moving) = (ref, im)
+    or (im, ref) when `swap`.  Returns (shift, aligned)."""
+    est, up = cfg["est"], int(cfg["up"])
     aligned = None
+
+    def order(pair):
+        return (pair[1], pair[0]) if swap else pair
+
     with ctx.sut(case, what):
         if est == "numpy":
             ms = None
-            if case.get("max_shift_margin") is not None:
+            if cfg.get("max_shift_margin") is not None:
                 d = (R.wrap_centered(-float(case["shift"][0]), case["h"]), R.wrap_centered(-float(case["shift"][1]), case["w"]))
-                ms = math.hypot(*d) + float(case["max_shift_margin"])
-            A, B = (np.fft.fft2(a), np.fft.fft2(b)) if case["fft_input"] else (a.copy(), b.copy())
-            kw = dict(upsample_factor=up, max_shift=ms, fft_input=case["fft_input"])
+                ms = math.hypot(*d) + float(cfg["max_shift_margin"])
+            A, B = order(pool.fft_np() if cfg["fft_input"] else pool.real_np())
+            kw = dict(upsample_factor=up, max_shift=ms, fft_input=cfg["fft_input"])
             if want_img:
-                r, aligned = iu.cross_correlation_shift(A, B, return_shifted_image=True, fft_output=case["fft_output"], **kw)
+                r, aligned = iu.cross_correlation_shift(A, B, return_shifted_image=True, fft_output=cfg["fft_output"], **kw)
             else:
                 r = iu.cross_correlation_shift(A, B, **kw)
+        elif est == "torch":
+            ta, tb = order(pool.real_t())
+            r = iu.cross_correlation_shift_torch(ta, tb, upsample_factor=up).detach().cpu().numpy()
         else:
-            dt = torch.float32 if case["dtype"] == "float32" else torch.float64
-            ta, tb = torch.tensor(a, dtype=dt), torch.tensor(b, dtype=dt)
-            if est == "torch":
-                r = iu.cross_correlation_shift_torch(ta, tb, upsample_factor=up)
-            else:
-                r = iu.align_images_fourier_torch(torch.fft.fft2(ta), torch.fft.fft2(tb), up)
-            r = r.detach().cpu().numpy()
+            G1, G2 = order(pool.fft_t())
+            r = iu.align_images_fourier_torch(G1, G2, up).detach().cpu().numpy()
     r = np.asarray(r, dtype=np.float64).ravel()
     if r.shape != (2,) or not np.all(np.isfinite(r)):
         raise core.Violation("%s: result is not a finite pair: %r" % (what, r.tolist()), case)
     if aligned is not None:
         aligned = np.asarray(aligned)
-        if aligned.shape != a.shape:
-            raise core.Violation("%s: aligned image has shape %s, input %s" % (what, aligned.shape, a.shape), case)
+        if aligned.shape != pool.a.shape:
+            raise core.Violation("%s: aligned image has shape %s, input %s" % (what, aligned.shape, pool.a.shape), case)
     return r, aligned
+
+
+def _judge(ctx, case, cfg, iu, pool, T, k, inner_swap):
+    """One registration call with settings `cfg` (call number k of the case), judged against the
+    ground truth T.  With cfg["swap"] the roles are exchanged: reference = im, moving = ref, and
+    the applied translation is -s."""
+    h, w, spec = T["h"], T["w"], T["spec"]
+    up, est = int(cfg["up"]), cfg["est"]
+    integer, identical, guard_ok = T["integer"], T["identical"], T["guard_ok"]
+    swap = bool(cfg.get("swap"))
+    if swap:
+        ref, im, s = T["im"], T["ref"], (-T["s"][0], -T["s"][1])
+    else:
+        ref, im, s = T["ref"], T["im"], T["s"]
+    exp = (R.wrap_centered(-float(s[0]), h), R.wrap_centered(-float(s[1]), w))
+    tcfg = dict(cfg, dtype=case["dtype"])
+    tag = "" if k == 0 else "call #%d on the same input arrays (%s, up=%d%s): " % (k + 1, est, up, ", roles swapped" if swap else "")
+
+    want_img = est == "numpy" and bool(cfg.get("ret_img"))
+    r, aligned = _estimate(ctx, case, cfg, iu, pool, swap, tag + "estimate(ref, im)", want_img)
+    tol = shift_tol(tcfg, integer)
+    scale = float(np.max(np.abs(im)))
+
+    # -- the aligned image is `im` translated by the *returned* shift (holds whatever the accuracy)
+    if aligned is not None:
+        al = np.real(np.fft.ifft2(aligned)) if cfg["fft_output"] else aligned
+        if np.iscomplexobj(al):
+            raise core.Violation(tag + "aligned image (fft_output=False) is complex", case)
+        mine = R.fourier_shift(im, (r[0], r[1]))
+        e = core.maxerr(al, mine)
+        _ratio(ctx, "aligned_vs_T_r(im)", e, 1e-6 * scale)
+        if e > 1e-6 * scale:
+            _fail(tag + "aligned image is not im translated by the returned shift %r: max|diff| = %.3g (image scale %.3g)" % (r.tolist(), e, scale), case)
+
+    # -- reported in the centred cell (not for the Fourier-level torch routine, which reports a
+    #    position on the correlation grid and leaves the wrap to its caller)
+    if est != "torch_fourier":
+        if not (-h / 2.0 - 1e-9 <= r[0] <= h / 2.0 + 1e-9 and -w / 2.0 - 1e-9 <= r[1] <= w / 2.0 + 1e-9):
+            _fail(tag + "returned shift %r is outside the centred cell of a %dx%d image" % (r.tolist(), h, w), case)
+
+    if not guard_ok:
+        return
+
+    # -- the returned shift is the applied translation (sign: moving `im` by it gives `ref`)
+    ey, ex = R.circ_err(r[0], exp[0], h), R.circ_err(r[1], exp[1], w)
+    err = max(ey, ex)
+    stage = "" if integer else (":coarse_only" if up == 1 or (up == 2 and est != "numpy") else ":upsampled")
+    _ratio(ctx, "shift:%s:%s%s" % ("int" if integer else "sub", est, stage), err, tol)
+    # No hypothesis.target(): with Hypothesis 6.168 the target optimiser's hill climb was observed
+    # (seed 12345) to spin for > 10 min inside cached simulations without executing a single test.
+    # The error is steered by construction instead (fractional parts at the rounding boundaries);
+    # the worst error/tolerance ratios seen are reported in the evidence under coverage.extra.
+    if err > tol:
+        _fail(
+            tag
+            + "%s up=%d on a %dx%d %s image translated by %r: returned %r, expected %r (error %.3g px > %.3g px)"
+            % (est, up, h, w, spec["type"], list(s), r.tolist(), list(exp), err, tol),
+            case,
+        )
+
+    # -- translating im by the returned shift reproduces ref; so does the returned aligned image
+    gy, gx = T["grad"]
+    itol = 1.05 * tol * (gy + gx) + 1e-6 * scale
+    e = core.maxerr(R.fourier_shift(im, (r[0], r[1])), ref)
+    _ratio(ctx, "T_r(im)_vs_ref", e, itol)
+    if e > itol:
+        _fail(tag + "im translated by the returned shift %r differs from ref by %.3g (> %.3g)" % (r.tolist(), e, itol), case)
+    if aligned is not None:
+        e = core.maxerr(al, ref)
+        _ratio(ctx, "aligned_vs_ref", e, itol)
+        if e > itol:
+            _fail(tag + "returned aligned image differs from the reference by %.3g (> %.3g)" % (e, itol), case)
+
+    # -- swapping the two images negates the result (on the periodic cell)
+    if inner_swap is not None and not identical:
+        if inner_swap is pool:
+            tag = tag or "second call on the same input arrays: "
+        r2, _ = _estimate(ctx, case, cfg, iu, inner_swap, not swap, tag + "estimate(im, ref)", False)
+        sy, sx = R.circ_err(r2[0], -r[0], h), R.circ_err(r2[1], -r[1], w)
+        _ratio(ctx, "swap", max(sy, sx), 2 * tol)
+        if max(sy, sx) > 2 * tol:
+            _fail(tag + "swapping the images does not negate the shift: %r vs %r" % (r.tolist(), r2.tolist()), case)
 
 
 def check(ctx, case):
@@ -196,10 +350,12 @@ def check(ctx, case):
         raise core.HarnessError("white-noise images are only defined for integer shifts")
     ref = R.make_image(spec, h, w)
     im = ref.copy() if identical else R.fourier_shift(ref, s)
-    exp = (R.wrap_centered(-float(s[0]), h), R.wrap_centered(-float(s[1]), w))
     beyond = (float(s[0]) % h) > h / 2.0 or (float(s[1]) % w) > w / 2.0
+    history = list(case.get("history") or [])
 
     # sub-pixel clause only: is this (image, shift) inside the domain of two-stage registration?
+    # (both guards are invariant under exchanging the roles of the two images: the correlation is
+    # mirrored and the power spectrum is unchanged)
     guard_ok = True
     if not integer:
         perr = R.peak_conditioning(ref, s)
@@ -226,70 +382,23 @@ def check(ctx, case):
             classes.append("aligned_image:" + ("fourier" if case["fft_output"] else "real"))
         mm = case.get("max_shift_margin")
         classes.append("max_shift:" + ("none" if mm is None else "tight" if mm < 2.5 else "set"))
+    if history:
+        classes.append("reused_inputs")
+        classes.append("reused_inputs:calls=%d" % (1 + len(history)))
+        for st_ in history:
+            classes.append("reused_by:" + st_["est"] + ("+swapped" if st_.get("swap") else ""))
     nontrivial = ((not integer) and up >= 2 and guard_ok) or beyond or (h != w)
     ctx.record(case, bool(nontrivial), classes)
 
-    want_img = est == "numpy" and bool(case.get("ret_img"))
-    r, aligned = _estimate(ctx, case, iu, ref, im, "estimate(ref, im)", want_img)
-    tol = shift_tol(case, integer)
-    scale = float(np.max(np.abs(im)))
-
-    # -- the aligned image is `im` translated by the *returned* shift (holds whatever the accuracy)
-    if aligned is not None:
-        al = np.real(np.fft.ifft2(aligned)) if case["fft_output"] else aligned
-        if np.iscomplexobj(al):
-            raise core.Violation("aligned image (fft_output=False) is complex", case)
-        mine = R.fourier_shift(im, (r[0], r[1]))
-        e = core.maxerr(al, mine)
-        _ratio(ctx, "aligned_vs_T_r(im)", e, 1e-6 * scale)
-        if e > 1e-6 * scale:
-            _fail("aligned image is not im translated by the returned shift %r: max|diff| = %.3g (image scale %.3g)" % (r.tolist(), e, scale), case)
-
-    # -- reported in the centred cell (not for the Fourier-level torch routine, which reports a
-    #    position on the correlation grid and leaves the wrap to its caller)
-    if est != "torch_fourier":
-        if not (-h / 2.0 - 1e-9 <= r[0] <= h / 2.0 + 1e-9 and -w / 2.0 - 1e-9 <= r[1] <= w / 2.0 + 1e-9):
-            _fail("returned shift %r is outside the centred cell of a %dx%d image" % (r.tolist(), h, w), case)
-
-    if not guard_ok:
-        return
-
-    # -- the returned shift is the applied translation (sign: moving `im` by it gives `ref`)
-    ey, ex = R.circ_err(r[0], exp[0], h), R.circ_err(r[1], exp[1], w)
-    err = max(ey, ex)
-    stage = "" if integer else (":coarse_only" if up == 1 or (up == 2 and est != "numpy") else ":upsampled")
-    _ratio(ctx, "shift:%s:%s%s" % ("int" if integer else "sub", est, stage), err, tol)
-    # No hypothesis.target(): with Hypothesis 6.168 the target optimiser's hill climb was observed
-    # (seed 12345) to spin for > 10 min inside cached simulations without executing a single test.
-    # The error is steered by construction instead (fractional parts at the rounding boundaries);
-    # the worst error/tolerance ratios seen are reported in the evidence under coverage.extra.
-    if err > tol:
-        _fail(
-            "%s up=%d on a %dx%d %s image translated by %r: returned %r, expected %r (error %.3g px > %.3g px)"
-            % (est, up, h, w, spec["type"], list(s), r.tolist(), list(exp), err, tol),
-            case,
-        )
-
-    # -- translating im by the returned shift reproduces ref; so does the returned aligned image
-    gy, gx = R.grad_bounds(ref)
-    itol = 1.05 * tol * (gy + gx) + 1e-6 * scale
-    e = core.maxerr(R.fourier_shift(im, (r[0], r[1])), ref)
-    _ratio(ctx, "T_r(im)_vs_ref", e, itol)
-    if e > itol:
-        _fail("im translated by the returned shift %r differs from ref by %.3g (> %.3g)" % (r.tolist(), e, itol), case)
-    if aligned is not None:
-        e = core.maxerr(al, ref)
-        _ratio(ctx, "aligned_vs_ref", e, itol)
-        if e > itol:
-            _fail("returned aligned image differs from the reference by %.3g (> %.3g)" % (e, itol), case)
-
-    # -- swapping the two images negates the result (on the periodic cell)
-    if not identical:
-        r2, _ = _estimate(ctx, case, iu, im, ref, "estimate(im, ref)", False)
-        sy, sx = R.circ_err(r2[0], -r[0], h), R.circ_err(r2[1], -r[1], w)
-        _ratio(ctx, "swap", max(sy, sx), 2 * tol)
-        if max(sy, sx) > 2 * tol:
-            _fail("swapping the images does not negate the shift: %r vs %r" % (r.tolist(), r2.tolist()), case)
+    T = dict(h=h, w=w, spec=spec, ref=ref, im=im, s=(float(s[0]), float(s[1])) if not integer else (s[0], s[1]),
+             integer=integer, identical=identical, guard_ok=guard_ok, grad=R.grad_bounds(ref))
+    cfg0 = {k: case[k] for k in ("est", "up", "fft_input", "ret_img", "fft_output", "max_shift_margin") if k in case}
+    pool = _Pool(ref, im, case["dtype"])
+    # without a history every call gets freshly built arrays (the swapped-argument call included);
+    # with one, all calls of the case, the swapped-argument call too, share one set of arrays
+    _judge(ctx, case, cfg0, iu, pool, T, 0, pool if history else _Pool(ref, im, case["dtype"]))
+    for k, cfg in enumerate(history, start=1):
+        _judge(ctx, case, cfg, iu, pool, T, k, None)
 
 
 # key of the known-finding entry to use if the max_shift refinement defect is recorded rather than
@@ -301,4 +410,4 @@ def search(ctx):
     tight = not ctx.is_open(KEY_MAX_SHIFT)
     if not tight:
         ctx.exclude(KEY_MAX_SHIFT)
-    core.run_given(ctx, "cases", cases(tight_margins=tight), lambda c: check(ctx, c), ctx.n(5000, 60000))
+    core.run_given(ctx, "cases", cases(tight_margins=tight), lambda c: check(ctx, c), ctx.n(4500, 54000))
